@@ -1,5 +1,5 @@
 //! C08 — month stepping, field replacement and week helpers follow calendar rules. Shapes S + P.
-use chrono::{DateTime, Datelike, Month, Months, NaiveDate, Timelike, Utc, Weekday};
+use chrono::{FixedOffset, TimeZone, DateTime, Datelike, Month, Months, NaiveDate, Timelike, Utc, Weekday};
 use chrono_mc::core::*;
 use chrono_mc::lattice::*;
 use chrono_mc::refcal::*;
@@ -66,6 +66,28 @@ fn month_steps(acc: &mut Acc, d: NaiveDate, y: i64, m: u32, day: u32, ns: &[u32]
                 }
                 (None, None) => acc.hit_nt(MS_REF),
                 (g, w) => acc.violation("NaiveDate::checked_add_months", format!("NaiveDate({:?}).{}(Months::new({}))", d, if neg { "checked_sub_months" } else { "checked_add_months" }, n), format!("{:?}", w), format!("{:?}", g)),
+            }
+            // sibling forms: the operators (panic where the checked form refuses), and the same step on a
+            // NaiveDateTime and a DateTime<FixedOffset> carrying this date (time and offset kept)
+            if got.is_some() || day == 1 {
+                acc.transitions += 3;
+                let op = guard(|| if neg { d - Months::new(n) } else { d + Months::new(n) }).ok();
+                let t = d.and_time(mk_time(86_399 - (day * 1000 + m) % 86_399, 999_999_999));
+                let nd = guard(|| if neg { t - Months::new(n) } else { t + Months::new(n) }).ok();
+                let ndc = if neg { t.checked_sub_months(Months::new(n)) } else { t.checked_add_months(Months::new(n)) };
+                let fo = FixedOffset::east_opt(if m % 2 == 0 { 3600 } else { -3600 }).unwrap();
+                let zdt = fo.from_local_datetime(&t).single();
+                let zd = zdt.and_then(|x| if neg { x.checked_sub_months(Months::new(n)) } else { x.checked_add_months(Months::new(n)) });
+                let wantdt = got.map(|g| g.and_time(t.time()));
+                if op != got || nd != wantdt || ndc != wantdt {
+                    acc.violation("Months:operator / NaiveDateTime forms", format!("NaiveDate({:?}) {} Months::new({}) and NaiveDateTime({:?}) likewise [operator, operator, checked]", d, if neg { "-" } else { "+" }, n, t), format!("{:?} / {:?}", got, wantdt), format!("{:?} / {:?} / {:?}", op, nd, ndc));
+                }
+                if let (Some(_), Some(w)) = (zdt, wantdt) {
+                    // judged only where the wall clock and its instant are both comfortably inside the range
+                    if (MIN_YEAR + 1..MAX_YEAR).contains(&(w.year() as i64)) && zd.map(|x| (x.naive_local(), x.offset().local_minus_utc())) != Some((w, fo.local_minus_utc())) {
+                        acc.violation("DateTime::checked_add_months", format!("DateTime({:?} at {}).{}(Months::new({}))", t, fo, if neg { "checked_sub_months" } else { "checked_add_months" }, n), format!("wall clock {:?} at the same offset", w), format!("{:?}", zd));
+                    }
+                }
             }
         }
     }
@@ -136,6 +158,16 @@ fn weeks(acc: &mut Acc, d: NaiveDate, z: i64) {
         if gd.clone().map(|r| (date_z(*r.start()), date_z(*r.end()))) != wdays {
             acc.violation("NaiveWeek::checked_days", format!("NaiveDate({:?}).week({:?}).checked_days()", d, WD[s as usize]), format!("{:?}", wdays), format!("{:?}", gd));
         }
+        if wdays.is_some() || (z - MIN_DAY).min(MAX_DAY - z) < 7 {
+            // the plain forms: the same days, or a panic where the checked forms say None
+            acc.transitions += 3;
+            let pf = guard(|| w.first_day()).ok();
+            let pl = guard(|| w.last_day()).ok();
+            let pd = guard(|| w.days()).ok();
+            if pf != gf || pl != gl || pd != gd {
+                acc.violation("NaiveWeek::first_day/last_day/days", format!("NaiveDate({:?}).week({:?}).first_day() / last_day() / days()", d, WD[s as usize]), format!("{:?} / {:?} / {:?} (panic for None)", gf, gl, gd), format!("{:?} / {:?} / {:?}", pf, pl, pd));
+            }
+        }
         if wdays.is_some() {
             acc.hit(WK_OK);
             // the start weekday, at most six days earlier, seven days long, contains the date
@@ -171,6 +203,14 @@ fn nth_weekday(acc: &mut Acc, y: i64, ns: &[u8]) {
                     (Ok(Some(g)), Some(w)) if ymd(g) == w && g.weekday() == WD[k as usize] => acc.hit(NTH_OK),
                     (Ok(None), None) => acc.hit_nt(NTH_NONE),
                     (g, w) => acc.violation("NaiveDate::from_weekday_of_month_opt", format!("NaiveDate::from_weekday_of_month_opt({}, {}, {:?}, {})", y, m, WD[k as usize], n), format!("{:?}", w), format!("{:?}", g)),
+                }
+                if want.is_some() || (n % 37 == 5 && m % 6 == 1) {
+                    #[allow(deprecated)]
+                    let dep = guard(|| NaiveDate::from_weekday_of_month(y as i32, m, WD[k as usize], n)).ok();
+                    acc.transitions += 1;
+                    if dep.map(ymd) != want {
+                        acc.violation("NaiveDate::from_weekday_of_month (deprecated form)", format!("NaiveDate::from_weekday_of_month({}, {}, {:?}, {})", y, m, WD[k as usize], n), format!("{:?} (panic for None)", want), format!("{:?}", dep));
+                    }
                 }
             }
         }
@@ -243,7 +283,7 @@ fn years_since(acc: &mut Acc, za: i64, all: &[i64]) {
         }
     }
     // with times, through DateTime<Utc>
-    for &zb in all.iter().step_by(17) {
+    for &zb in all.iter() {
         for (ta, tb) in [((0u32, 0u32), (0u32, 1u32)), ((43200, 0), (43200, 0)), ((86399, 999_999_999), (0, 0)), ((1, 0), (86399, 0))] {
             let a: DateTime<Utc> = mk_ndt(za, ta.0, ta.1).and_utc();
             let b: DateTime<Utc> = mk_ndt(zb, tb.0, tb.1).and_utc();
@@ -257,6 +297,11 @@ fn years_since(acc: &mut Acc, za: i64, all: &[i64]) {
             let got = a.years_since(b);
             if got != want {
                 acc.violation("DateTime::years_since", format!("DateTime({:?}).years_since({:?})", a, b), format!("{:?}", want), format!("{:?}", got));
+            }
+            let (na, nb) = (a.naive_utc(), b.naive_utc());
+            acc.transitions += 1;
+            if na.date().years_since(nb.date()).map(|v| v as i64 - if (ma, da) == (mb, db) && ta < tb { 1 } else { 0 }).filter(|v| *v >= 0) != want.map(|v| v as i64) {
+                acc.violation("NaiveDate::years_since vs DateTime::years_since", format!("{:?} vs {:?}", a, b), format!("{:?}", want), format!("{:?}", na.date().years_since(nb.date())));
             }
         }
     }
